@@ -133,8 +133,10 @@ def to_labels(trace):
                 labels.append("close")
             elif kind == "join-thread":
                 labels.append("jt")
-            elif kind == "set-flag":
+            elif kind == "set-flag" and t[2] == "e0":
                 labels.append("set")
+            elif kind == "flag?" and t[2] == "e1":
+                pass        # the parent's final look at the error flag (C19)
             elif kind == "join":
                 labels.append(f"join:{wid(t[2])}")
             else:
@@ -145,8 +147,8 @@ def to_labels(trace):
             k = wid(who)
             if kind == "begin":
                 labels.append(f"begin:{k}")
-            elif kind == "flag?":
-                labels.append(f"fq:{k}:{1 if t[2] == 'true' else 0}")
+            elif kind == "flag?" and t[2] == "e0":
+                labels.append(f"fq:{k}:{1 if t[3] == 'true' else 0}")
             elif kind == "rlock":
                 labels.append(f"rl:{k}")
             elif kind == "rlock-timeout":
@@ -170,36 +172,27 @@ def run_sim(fn, chooser, max_steps=6000):
     return simmp.simulate(fn, chooser, max_steps=max_steps, hang_window=300)
 
 
-def _real_child(q, kind, arg, parallel):
+def _real_target(case, parallel):
     import toasty.par_util
     toasty.par_util.SHOW_INFORMATIONAL_MESSAGES = False
     d = tempfile.mkdtemp(prefix="vfc03r_")
     try:
         def cb(pos, tile):
             open(os.path.join(d, f"{pos.n}_{pos.x}_{pos.y}_{os.getpid()}_{time.monotonic_ns()}"), "w").close()
-        arg.build().visit_leaves(cb, parallel=parallel)
+        case.build().visit_leaves(cb, parallel=parallel)
         names = os.listdir(d)
-        q.put(sorted(tuple(int(v) for v in n.split("_")[:3]) for n in names))
-    except BaseException as e:  # noqa
-        q.put(f"error {type(e).__name__}: {e}")
+        return sorted(tuple(int(v) for v in n.split("_")[:3]) for n in names)
     finally:
         import shutil
         shutil.rmtree(d, ignore_errors=True)
 
 
 def real_visit(case, parallel, timeout=60):
-    q = mp.Queue()
-    p = mp.Process(target=_real_child, args=(q, "visit", case, parallel))
-    p.start()
-    p.join(timeout)
-    if p.is_alive():
-        p.kill()
-        p.join()
-        return "hang"
-    try:
-        return q.get(timeout=2)
-    except Exception:
-        return f"died ({p.exitcode})"
+    from .common import run_isolated
+    st, val = run_isolated(_real_target, (case, parallel), timeout)
+    if st == "ok":
+        return val
+    return f"{st}: {val}"
 
 
 def main():
@@ -281,7 +274,7 @@ def main():
                         h.violation("visit:geometry", f"{desc}: leaf {pos} was delivered with another tile's geometry", input={"case": case.line(), "pos": pos})
                         break
         items, labels, unknown, idx = to_labels(sim.trace)
-        pre_flag = sim.trace[: sim.trace.index("M set-flag")] if "M set-flag" in sim.trace else sim.trace
+        pre_flag = sim.trace[: sim.trace.index("M set-flag e0")] if "M set-flag e0" in sim.trace else sim.trace
         nontriv = any((" empty " in l or "rlock-timeout" in l) for l in pre_flag)
         h.case(tuple(sim.choices) if nontriv else None)
         h.count("stage", stage)
